@@ -294,19 +294,42 @@ class Hang(Exception):
 HANGS = [0]
 
 
+def cpu_guarded(fn, cpu=1.0, retry_factor=4, wall=90.0):
+    """Run fn() under a watchdog that measures PROCESS CPU time (ITIMER_PROF), not wall-clock time, so that a loaded
+    machine cannot make a terminating call look like a hang; gc is off inside the window; a hit is retried once with
+    `retry_factor` times the budget before Hang is raised. A generous wall-clock backstop (ITIMER_REAL) remains."""
+    import signal, gc, time
+    last = None
+    for budget in (cpu, cpu * retry_factor):
+        def on_prof(*a):
+            raise Hang(f'used more than {budget:.1f}s of CPU time')
+        def on_alarm(*a):
+            raise Hang(f'did not finish within {wall:.0f}s wall-clock (CPU used {time.process_time() - t0:.1f}s)')
+        old_p = signal.signal(signal.SIGPROF, on_prof)
+        old_a = signal.signal(signal.SIGALRM, on_alarm)
+        was_gc = gc.isenabled()
+        gc.disable()
+        t0 = time.process_time()
+        signal.setitimer(signal.ITIMER_PROF, budget)
+        signal.setitimer(signal.ITIMER_REAL, wall)
+        try:
+            return fn()
+        except Hang as h:
+            last = h
+        finally:
+            signal.setitimer(signal.ITIMER_PROF, 0)
+            signal.setitimer(signal.ITIMER_REAL, 0)
+            signal.signal(signal.SIGPROF, old_p)
+            signal.signal(signal.SIGALRM, old_a)
+            if was_gc:
+                gc.enable()
+    HANGS[0] += 1
+    raise last
+
+
 def export_guarded(fgd, seconds=2.0, **kw):
-    """fgd.export(**kw) under a watchdog: a writer loop that never advances would otherwise eat all memory."""
-    import signal
-    def on_alarm(*a):
-        HANGS[0] += 1
-        raise Hang(f'export did not finish within {seconds}s')
-    old = signal.signal(signal.SIGALRM, on_alarm)
-    signal.setitimer(signal.ITIMER_REAL, seconds)
-    try:
-        return fgd.export(**kw)
-    finally:
-        signal.setitimer(signal.ITIMER_REAL, 0)
-        signal.signal(signal.SIGALRM, old)
+    """fgd.export(**kw) under the CPU-time watchdog: a writer loop that never advances would otherwise eat all memory."""
+    return cpu_guarded(lambda: fgd.export(**kw), cpu=seconds)
 
 
 def text_roundtrip(fgd, custom_syntax, label_spawnflags, field_equality=True):
